@@ -102,6 +102,18 @@ func testFuncs(f *ast.File) []testFunc {
 	return tests
 }
 
+// coqComment makes text safe inside a Coq comment, the way goose's own
+// comments are: no comment delimiters and no unmatched double quote (Coq lexes
+// string literals inside comments).
+func coqComment(c string) string {
+	c = strings.ReplaceAll(c, "(*", "( *")
+	c = strings.ReplaceAll(c, "*)", "* )")
+	if strings.Count(c, "\"")%2 == 1 {
+		c += "\""
+	}
+	return c
+}
+
 type sourceFile struct {
 	name  string
 	info  os.FileInfo
@@ -246,7 +258,7 @@ func main() {
 		fmt.Fprint(out, coqHeader)
 
 		for _, file := range files {
-			fmt.Fprintf(out, "(* %s *)\n", file.name)
+			fmt.Fprintf(out, "(* %s *)\n", coqComment(file.name))
 			for _, t := range file.tests {
 				if t.fail != "" {
 					fmt.Fprintf(out, "Fail Example test%s_ok : %stest%s #() ~~> #true := t.\n", t.name, t.fail, t.name)
